@@ -14,7 +14,7 @@ Requests (one per line; the answer is zero or more lines, then `.`):
 * framing        `fr-new` · `fr-feed <hex>` → `frame <hex>`…, `exceeded`?, `buffered <n>`
 * broker client  `bc-new <host> <port> <policy>` (policy: comma-separated rationals, the last one
                  repeats) · `make <id> <0|1>` · `cancel <id>` · `connOk` · `connFail` ·
-                 `advance <rat>` · `bytes <hex>` · `lost` · `close` · `disconnect` ·
+                 `advance <rat>` · `bytes <hex>` · `lost [done|lost|other]` · `close` · `disconnect` ·
                  `meta <host> <port>` · `wfail <0|1>` → observation lines · `bc-state` → a dump
                  A `make` may carry a re-entrant callback: `make <id> <0|1> hook <action> [; <action>]…` with <action> one of
                  `close`, `disconnect`, `cancel <id>`, `make <id> <0|1>`; `sync <none|ok|fail>` makes the endpoint answer `connect()` synchronously; `stubborn <0|1>` switches the endpoint that
@@ -124,6 +124,10 @@ def parseEv : List String → Option Ev
   | ["advance", q] => do some (.advance (← parseRat q))
   | ["bytes", h] => do some (.bytesIn (← parseHex h))
   | ["lost"] => some .lost
+  -- the reason `connectionLost` is called with (ConnectionDone / ConnectionLost / anything else): the code only logs it
+  | ["lost", "done"] => some .lost
+  | ["lost", "lost"] => some .lost
+  | ["lost", "other"] => some .lost
   | ["close"] => some .close
   | ["disconnect"] => some .disconnect
   | ["meta", h, p] => do some (.updateMetadata (← h.toNat?) (← p.toNat?))
@@ -405,6 +409,11 @@ def step (st : DSt) (line : String) : DSt × List String :=
   | ["mon-boot", strict] => match BC.parseBool strict with
     | some b => if st.tBad then (st, ["bad-op"]) else (st, verdict (bootFirstBad b Afkak.Monitor.C06.BSt.init 0 (fixTr st.btr)))
     | none => (st, ["bad-op"])
+  | ["mon-boot-bytes"] =>
+    if st.tBad then (st, ["bad-op"]) else
+      (st, verdict (Afkak.BrokerClientBytes.Boot.bootBytesFirstBad Afkak.BrokerClientBytes.Boot.BL.init 0 (fixTr st.btr)))
+  | ["mon-model-boot-bytes"] =>
+    (st, verdict (Afkak.BrokerClientBytes.Boot.bootBytesFirstBad Afkak.BrokerClientBytes.Boot.BL.init 0 st.bsTr.reverse))
   | ["mon-model-boot", strict] => match BC.parseBool strict with
     | some b => (st, verdict (bootFirstBad b Afkak.Monitor.C06.BSt.init 0 st.bsTr.reverse))
     | none => (st, ["bad-op"])
